@@ -61,46 +61,57 @@ Definition scope_resolve (final : forest) (encl : list nat) (k : nat) (path : li
       end
   end.
 
-(* insertion of a declaration with k dots; None = rejected (skipped level or duplicate) *)
-Fixpoint scope_insert (f : forest) (k : nat) (nm : text) (id : nat) : option forest :=
+(* the most recent sibling *)
+Fixpoint last_sibling (f : forest) : option (text * nat * forest) :=
   match f with
-  | FNil => match k with O => Some (FCons nm id FNil FNil) | S _ => None end
-  | FCons n i kids rest =>
-      match rest with
-      | FNil =>                                   (* n is the most recent declaration at this depth *)
-          match k with
-          | O => if text_eqb nm n then None else Some (FCons n i kids (FCons nm id FNil FNil))
-          | S k' => match scope_insert kids k' nm id with
-                    | Some kids' => Some (FCons n i kids' FNil)
-                    | None => None
-                    end
-          end
-      | FCons _ _ _ _ =>
-          match k with
-          | O => if text_eqb nm n then None
-                 else match scope_insert rest k nm id with Some r' => Some (FCons n i kids r') | None => None end
-          | S _ => match scope_insert rest k nm id with Some r' => Some (FCons n i kids r') | None => None end
+  | FNil => None
+  | FCons n i k FNil => Some (n, i, k)
+  | FCons _ _ _ r => last_sibling r
+  end.
+
+(* a new last sibling *)
+Fixpoint add_sibling (f : forest) (nm : text) (id : nat) : forest :=
+  match f with
+  | FNil => FCons nm id FNil FNil
+  | FCons n i k r => FCons n i k (add_sibling r nm id)
+  end.
+
+(* the same siblings, the most recent one with new children *)
+Fixpoint with_last_kids (f : forest) (kids' : forest) : forest :=
+  match f with
+  | FNil => FNil
+  | FCons n i k FNil => FCons n i kids' FNil
+  | FCons n i k r => FCons n i k (with_last_kids r kids')
+  end.
+
+(* insertion of a declaration with k dots; None = rejected (skipped level or duplicate) *)
+Fixpoint scope_insert (k : nat) (f : forest) (nm : text) (id : nat) : option forest :=
+  match k with
+  | O => match find_child nm f with
+         | Some _ => None                                   (* the name is taken in this scope *)
+         | None => Some (add_sibling f nm id)
+         end
+  | S k' =>
+      match last_sibling f with
+      | None => None                                        (* no declaration one level up *)
+      | Some (_, _, kids) =>
+          match scope_insert k' kids nm id with
+          | Some kids' => Some (with_last_kids f kids')
+          | None => None
           end
       end
   end.
 
-(* the two ways a declaration is rejected, separately *)
-Fixpoint last_sibling_kids (f : forest) : option forest :=
-  match f with
-  | FNil => None
-  | FCons _ _ k FNil => Some k
-  | FCons _ _ _ r => last_sibling_kids r
-  end.
-(* the sibling list a declaration with k dots lands in; None = a nesting level is skipped *)
-Fixpoint scope_at (f : forest) (k : nat) : option forest :=
+(* the two ways a declaration is rejected, separately: the sibling list a declaration with k dots lands in *)
+Fixpoint scope_at (k : nat) (f : forest) : option forest :=
   match k with
   | O => Some f
-  | S k' => match last_sibling_kids f with Some kids => scope_at kids k' | None => None end
+  | S k' => match last_sibling f with Some (_, _, kids) => scope_at k' kids | None => None end
   end.
 Definition skips_level (f : forest) (k : nat) : bool :=
-  match scope_at f k with Some _ => false | None => true end.
+  match scope_at k f with Some _ => false | None => true end.
 Definition duplicate_in_scope (f : forest) (k : nat) (nm : text) : bool :=
-  match scope_at f k with
+  match scope_at k f with
   | Some s => match find_child nm s with Some _ => true | None => false end
   | None => false
   end.
@@ -113,13 +124,34 @@ Fixpoint enclosing (f : forest) : list nat :=
   | FCons _ _ _ r => enclosing r
   end.
 
-(* the forest of a sequence of declarations (dots, name), identities 0, 1, 2, ... in program order *)
-Fixpoint build_from (f : forest) (next : nat) (ds : list (nat * text)) : option forest :=
-  match ds with
-  | [] => Some f
-  | (k, nm) :: r => match scope_insert f k nm next with Some f' => build_from f' (S next) r | None => None end
+(* a program as far as scoping goes: Some (dots, name) = a declaration, None = any other node *)
+Definition prog := list (option (nat * text)).
+
+(* walk the program: the scopes enclosing every node (a declaration node: including itself; identities
+   0, 1, 2, ... in program order) and the final forest; None = some declaration is rejected *)
+Fixpoint scopes_from (f : forest) (next : nat) (p : prog) : option (list (list nat) * forest) :=
+  match p with
+  | [] => Some ([], f)
+  | None :: r =>
+      match scopes_from f next r with
+      | Some (l, ff) => Some (enclosing f :: l, ff)
+      | None => None
+      end
+  | Some (k, nm) :: r =>
+      match scope_insert k f nm next with
+      | Some f' =>
+          match scopes_from f' (S next) r with
+          | Some (l, ff) => Some (enclosing f' :: l, ff)
+          | None => None
+          end
+      | None => None
+      end
   end.
-Definition build (ds : list (nat * text)) : option forest := build_from FNil 0 ds.
+Definition scopes (p : prog) : option (list (list nat) * forest) := scopes_from FNil 0 p.
+Definition build (p : prog) : option forest :=
+  match scopes p with Some (_, f) => Some f | None => None end.
+Definition enclosing_at (p : prog) (i : nat) : option (list nat) :=
+  match scopes p with Some (l, _) => nth_error l i | None => None end.
 
 (* all identities, and the full dotted path of an identity *)
 Fixpoint ids (f : forest) : list nat :=
